@@ -325,6 +325,10 @@ def file_table():
          "Xh": A[:30], "Xb": A[:len(A) - 7], "Z": b""}
     # strings of EVERY length up to 6 / up to 10: whatever the library keeps per string length (struct formats, decoders) is
     # exercised at consecutive lengths, and the longer file asks for lengths the shorter one never needs
+    # two headers longer than the 10 KiB prefetch that agree on their first 10 300 bytes (one long component name) and differ after
+    # it: whatever identifies a header must look at ALL of it
+    t["L1"] = mk_file(["l1a", "l1b"], seed=12, name="n" * 10300)
+    t["L2"] = mk_file(["l2a", "l2b"], seed=13, name="n" * 10300)
     t["S"] = mk_file(["s" * k for k in range(1, 7)], seed=10)
     t["T"] = mk_file(["t" * k for k in range(1, 11)], seed=11)
     return t
@@ -351,7 +355,7 @@ class C18(common.Prop):
             "shorter, malformed - as bytes, as streams and as window reads of streams, memo initially empty or warm; for every pair "
             "all line-level schedules with <= 2 (thorough <= 3) preemptions, 3 readers sampled; plus, judged by the oracle only, one preemption "
             "before every (quick: 70 sampled per pair and order) source line of pose_format executed inside Pose.read, cold memo, "
-            "7 pairs x 2 orders, and one preemption before a sampled BYTECODE (40 per pair and order; thorough 700) of the same "
+            "8 pairs x 2 orders, and one preemption before a sampled BYTECODE (40 per pair and order; thorough 700) of the same "
             "reads (sys.settrace with f_trace_opcodes), plus every bytecode executed inside a function that names a module-level "
             "list / dict / set / bytearray (none on the read path of the library as it stands); a quarter "
             "of the line cases and a third of the bytecode cases run in a freshly imported package (first-use races on lazily built "
@@ -473,7 +477,7 @@ class C18(common.Prop):
     LINE_PAIRS = [(("A", "bytes", None), ("A2", "bytes", None)), (("A", "bytes", None), ("C", "bytes", None)),
                   (("C", "stream", None), ("D", "stream", None)), (("Along", "stream", {"end_frame": 2}), ("Clong", "stream", {"start_frame": 1, "end_frame": 5})),
                   (("Along", "stream", {"end_frame": 3}), ("A2", "bytes", None)), (("E", "bytes", None), ("B", "stream", {"end_frame": 1})),
-                  (("T", "bytes", None), ("S", "bytes", None))]
+                  (("T", "bytes", None), ("S", "bytes", None)), (("L1", "bytes", None), ("L2", "bytes", None))]
 
     def count_lines(self, case, opcodes=False, hot=False):
         self.Cache.clear_cache()
